@@ -44,6 +44,11 @@ def scenarios(tier, pid):
        "--threads", "X9:5,R10:6;R10:1,U1", "--preempt", 2)
     sc("stale_and_fresh_ids", ("C05", "C01"), "--threads", "R10:1,U1,U1,R10:2,R12:3,S10,S10,U3",
        "--nested", 1)
+    sc("stale_id_after_reregistration", ("C02", "C05"), "--threads", "R10:1,R10:2,U2,R10:3,U2,D10,U1,U3")
+    sc("poisoned_writer_then_concurrent_mutators", ("C01", "C05", "C18"), "--threads",
+       "U90,U1,D10;R12:5", "--pre", "R10:90,R10:1", "--preempt", 2)
+    sc("failed_os_registration_then_more_calls", ("C18", "C05"), "--threads", "N9:5,R10:1,U1;N19:6,R12:2",
+       "--preempt", 1)
     sc("handler_at_every_point", ("C03", "C01", "C02"), "--threads", "R10:1,U1,R12:2,S12,U7",
        "--pre", "R10:7,R10:8", "--nested", 1, "--handler-atomic", "--signals", "10,12")
     if tier == "thorough":
@@ -59,6 +64,10 @@ def scenarios(tier, pid):
            "--prev", "10:info,12:plain", "--nested", 2, "--signals", "10,12", "--preempt", 2)
     return S
 
+
+RG_ACTIONS = ["M_Start", "M_Lock", "M_Clone", "M_Detect", "M_FPublish", "M_FFree", "M_Sigaction",
+              "M_Publish", "M_Free", "M_Return", "Deliver", "H_OpenF", "H_OpenD", "H_Lookup", "H_Act",
+              "H_Close"]
 
 MODEL_INV = {
     "C01": ["NoUseAfterFree", "Quiescent"],
@@ -161,8 +170,10 @@ def run_model(chk, tier):
     for what, cfg, tmo in model_configs(tier):
         c = dict(cfg)
         c.update(consts)
+        first = what == model_configs(tier)[0][0]
         r = chk.model_check("Registry.tla", c, invariants=MODEL_INV[pid], what=what, timeout=tmo,
-                            workers=8 if tier == "quick" else 12, deadlock=(pid == "C18"))
+                            workers=8 if tier == "quick" else 12, deadlock=(pid == "C18"),
+                            expect=RG_ACTIONS if first else ())
         if r.violation:
             chk.model_violation(r, "lib.rs as extracted (%s)" % what, c, extra={"signature": sig})
     if pid == "C18":
